@@ -114,10 +114,13 @@ where
 /-- the records delivered to the node before its `i`-th watermark, for every `i` -/
 def inputsAtWm (B : List Msg) : List (List Rec) := (prefixesAtWm B).map fun p => recs p.1
 
+partial def dedupRows : List Row → List Row
+  | [] => []
+  | r :: rs => r :: dedupRows (rs.filter fun x => !rowEq r x)
+
 def candidateRows (C : GBConf) (rs : List Rec) (out : List Msg) : List Row :=
-  (recs out).map (·.vals) ++ rs.map fun r =>
-    let k := C.keyOf r.vals
-    k ++ specResults C.aggs (ofKey C k rs)
+  let keys := dedupRows (rs.map fun r => C.keyOf r.vals)
+  dedupRows ((recs out).map (·.vals) ++ keys.map fun k => k ++ specResults C.aggs (ofKey C k rs))
 
 /-- when `wm W` is forwarded the output holds the current result of every key at or below `W` -/
 def checkComplete (op : GbOp) (idx : Nat) (out : List Msg) : Option String :=
